@@ -225,3 +225,17 @@ def save_replay(prop, name, obj):
     with open(p, 'w') as f:
         json.dump(obj, f, indent=1)
     return p
+
+def simulate_states(cfgname, module, num, depth, seed, timeout=300):
+    """tlc -simulate returning behaviours as lists of (action, args, state)."""
+    from . import tlaval
+    w = scratch('tlcsim')
+    try:
+        rc, out = run_tlc(w, module, read_cfg(cfgname), args=['-simulate', 'file=%s/beh,num=%d' % (w, num), '-depth', str(depth), '-seed', str(seed)],
+                          workers=1, timeout=timeout)
+        files = sorted(glob.glob(os.path.join(w, 'beh_*')), key=lambda p: [int(x) for x in re.findall(r'\d+', os.path.basename(p))])
+        if not files:
+            raise ToolError('TLC simulation of %s produced no behaviours (rc=%s):\n%s' % (cfgname, rc, out[-3000:]))
+        return [tlaval.behaviour_with_states(f) for f in files]
+    finally:
+        shutil.rmtree(w, ignore_errors=True)
